@@ -303,8 +303,18 @@ impl LockStep {
                 self.entries += 1;
                 after(&mut self.rf);
             } else if may1 {
-                // held or forgotten: both outcomes are allowed; the state comparison decides
-                if self.sut_took_interrupt() {
+                // held or forgotten: both outcomes are allowed; the state comparison decides. At a
+                // halt (sampling edge unknown, b == i64::MAX) the question is whether an entry that
+                // error-stops in one of its pushes explains the halt.
+                let took = if b == i64::MAX {
+                    let mut probe = self.rf.clone();
+                    let mut i2 = info.clone();
+                    probe.enter_interrupt(&mut i2);
+                    i2.halted
+                } else {
+                    self.sut_took_interrupt()
+                };
+                if took {
                     self.rf.enter_interrupt(info);
                     self.entries += 1;
                     after(&mut self.rf);
